@@ -116,6 +116,29 @@ theorem frame_ok_iff_valid (p : Packet) : (∃ bs, frame p = .ok bs) ↔ p.Valid
       · omega
   · intro h; exact ⟨_, frame_ok p h⟩
 
+/-- **Dictionary**: whatever sequence of `SetDictionary` calls was made (each with any
+map-iteration order, stopping at the first duplicate as the code does), the two
+Go maps stay mutually inverse and every code is a uint16 … -/
+theorem SetDictionary_bijective (trim : Bytes → Bytes) (calls : List (List (Bytes × Nat)))
+    (hc : ∀ es ∈ calls, ∀ e ∈ es, e.2 < 65536) :
+    let d := calls.foldl (fun d es => (setDictionary trim d es).1) []
+    ∀ r c, d.routes r = some c → d.codes c = some r ∧ c < 65536 := by
+  intro d r c h
+  have hw : DictWF d := setDictionary_calls_wf trim calls [] dictWF_nil hc
+  exact dict_routes_codes d hw r c h
+
+/-- … so the round trip holds with route compression for EVERY reachable dictionary
+(this discharges the `hdict` hypothesis of `decode_encode`). -/
+theorem decode_encode_any_dictionary (trim : Bytes → Bytes) (calls : List (List (Bytes × Nat)))
+    (hc : ∀ es ∈ calls, ∀ e ∈ es, e.2 < 65536)
+    (deflate : Bytes → Bytes) (inflate : Bytes → Option Bytes) (compress : Bool)
+    (hz : ∀ x, inflate (deflate x) = some x)
+    (m : Msg) (hid : m.id < 2 ^ 64) (hrl : m.route.length ≤ 255) :
+    let E := (calls.foldl (fun d es => (setDictionary trim d es).1) []).env deflate inflate compress
+    decodeMsg E (encodeMsg E m) = .ok (carried m) := by
+  intro E
+  exact decode_encode E m hid hrl (SetDictionary_bijective trim calls hc) hz
+
 /-- `frame` = header (a function of type and length only) followed by the body -/
 theorem frame_eq_header (p : Packet) :
     frame p = (match frameHeader p.typ p.body.length with | .ok h => .ok (h ++ p.body) | .error e => .error e) := by
